@@ -3,6 +3,7 @@ import Pfst.PutBack
 import Pfst.CommentLemmas
 import Pfst.DocLemmas
 import Pfst.Indentable
+import Pfst.SharedDelims
 
 /-!
 # C08 — putting back what was taken restores the tree; accessors read back writes
@@ -460,6 +461,20 @@ theorem toElif_complete (c : ElifCase) (h : elifAllowed c = true) (ho : c.optEli
   simp only [Bool.and_eq_true] at h
   unfold elifDecision
   simp [h.1.1.1.1.1, h.1.1.1.1.2, h.1.1.1.2, h.1.1.2, h.1.2, h.2, ho]
+
+/-! ### sync / async twins -/
+
+/-- **Sync and async twins get the same fix-up decision**, and the same membership in every statement family pfst
+decides by (`ASTS_LEAF_WITH`, `_FOR`, `_FUNCDEF`, `_TRY` as extracted from the code on this run). -/
+theorem twins_same_fixup :
+    ∀ p ∈ Pfst.SharedDelims.twins, Pfst.SharedDelims.fixWithItems p.1 = Pfst.SharedDelims.fixWithItems p.2 ∧
+      ∀ i, i < 4 → Pfst.SharedDelims.inFamily i p.1 = Pfst.SharedDelims.inFamily i p.2 := by decide
+
+/-- The fix-up runs for `with` and for `async with`, and for no other statement kind of the table. -/
+theorem with_family_fixed :
+    Pfst.SharedDelims.fixWithItems "With" = true ∧ Pfst.SharedDelims.fixWithItems "AsyncWith" = true ∧
+      (Pfst.Gen.C08Families.table.filter (fun r => Pfst.SharedDelims.fixWithItems r.1)).map (·.1) = ["AsyncWith", "With"] := by
+  decide
 
 /-! ### non-vacuity -/
 
